@@ -12,6 +12,7 @@ mod adl;
 mod actions;
 mod c20;
 mod c21;
+mod c21liq;
 mod c32s;
 mod c33;
 mod glvchk;
